@@ -13,10 +13,10 @@ pub fn prop() -> Prop {
     Prop {
         id: "C13",
         level: "model_checking",
-        rule: "(a) every alias of every function against the canonical name on every documented example and on every argument tuple (arity <=3) over 6 atoms of all types; (b) 48 expressions (a third reading :v, @m, a selected name or ^ after --split-by) as --select (first and later), --filter, --sort-by (both directions), --group-by, --split-by, --set macro and --set variable, the late positions also behind another --select over all sequences of <=3 (thorough <=4) values over 5 records, and over 700 records for the expressions reading variables and macros; (c) 40 expressions, and 22 big ones (nesting depth 9..65, 9..130 arguments, literals and names of 31..300 characters), in 14 spellings (separators blank, comma, comma-blank, two blanks, tab, newline; padding before the closing parenthesis; leading-dot sugar; a comma directly after a variable, macro, key, number, string) (d) --regular-expression-cache-size in {0,1,2,64} x all sequences of <=2 (thorough <=3) (subject, pattern) pairs over 4 subjects x 6 patterns and of <=4 (thorough <=5) over a 12-pair core (one invalid pattern; two pairs whose pattern+subject texts glue to the same string) through match and extract_regex_group, and sequences with 0/1/2/7 more distinct patterns than a cache of 2/3/16/64 holds, each revisited; five big patterns (\\w{30}, \\p{L}{60}, ..) under cache sizes 0/1/3/64; non-trivial = the compared forms differ textually and the value is not nothing; distinct by construction",
+        rule: "(a) every alias of every function against the canonical name on every documented example and on every argument tuple (arity <=3) over 6 atoms of all types; (b) 48 expressions (a third reading :v, @m, a selected name or ^ after --split-by) as --select (first and later), --filter, --sort-by (both directions), --group-by, --split-by, --set macro and --set variable, the late positions also behind another --select over all sequences of <=3 (thorough <=4) values over 5 records, and over 700 records for the expressions reading variables and macros; (c) 40 expressions, and 22 big ones (nesting depth 9..65, 9..130 arguments, literals and names of 31..300 characters), in 14 spellings (separators blank, comma, comma-blank, two blanks, tab, newline; padding before the closing parenthesis; leading-dot sugar; a comma directly after a variable, macro, key, number, string) (d) --regular-expression-cache-size in {0,1,2,64} x all sequences of <=2 (thorough <=3) (subject, pattern) pairs over 4 subjects x 6 patterns and of <=4 (thorough <=5) over a 12-pair core (one invalid pattern; two pairs whose pattern+subject texts glue to the same string) through match and extract_regex_group, and sequences with 0/1/2/7 more distinct patterns than a cache of 2/3/16/64 holds, each revisited; five big patterns (\\w{30}, \\p{L}{60}, ..) under cache sizes 0/1/3/64; non-trivial = the compared forms differ textually and the value is not nothing; distinct by construction; (e) 12 expressions that use one macro body (given with --set) under different bindings of the names it mentions (define/set around the use, shadowing a --set binding), each alone against the reference evaluator and all ordered pairs (thorough: all triples) as selections of one run; in (b) sort and group positions are also tried next to a second --sort-by that ties every row",
         explanation: "differential inside the implementation (same run, several selections; or the rows kept / ordered / grouped / produced versus the values the same expression has as a selection) and, for the regex cache, against the regex crate called directly",
         assumptions: COMMON_ASSUMPTIONS.to_vec(),
-        guards: vec!["big-patterns", "hundreds-of-rows-in-every-position", "more-patterns-than-the-cache-holds", "alias-with-value", "filter-kept-and-dropped", "sort-reordered", "group-two-keys", "split-produced-rows", "comma-after-variable", "dot-sugar", "cache-eviction", "invalid-pattern", "macro-position", "variable-position"],
+        guards: vec!["one-macro-body-under-two-bindings", "position-next-to-another-sort", "big-patterns", "hundreds-of-rows-in-every-position", "more-patterns-than-the-cache-holds", "alias-with-value", "filter-kept-and-dropped", "sort-reordered", "group-two-keys", "split-produced-rows", "comma-after-variable", "dot-sugar", "cache-eviction", "invalid-pattern", "macro-position", "variable-position"],
         budget_s: (100, 1800),
         single_worker: false,
         run,
@@ -259,6 +259,15 @@ fn position_part(ctx: &mut Ctx) {
                             if got.as_ref() != Some(&exp) {
                                 report(ctx, "sort-order-differs-from-the-order-of-the-selected-values", &tag("sort"), &c, super::pipe::texts(&exp), &got);
                             }
+                            // the same key listed before a second sort key that ties every row (the stable sort leaves the order as it is)
+                            let mut extra = pre.clone();
+                            extra.push(format!("--sort-by={etext}{}", if desc { "=DESC" } else { "" }));
+                            extra.push("--sort-by=(len \"\")".into());
+                            let (c, got) = run_pos(ctx, extra);
+                            ctx.guard("position-next-to-another-sort");
+                            if got.as_ref() != Some(&exp) {
+                                report(ctx, "sort-order-differs-from-the-order-of-the-selected-values", &tag("sort-before-a-tying-sort"), &c, super::pipe::texts(&exp), &got);
+                            }
                         }
                     }
                     // --group-by groups by the selected values
@@ -281,6 +290,14 @@ fn position_part(ctx: &mut Ctx) {
                         let exp = vec![V::Obj(groups.into_iter().map(|(k, g)| (k, V::Arr(g))).collect())];
                         if got.as_ref() != Some(&exp) {
                             report(ctx, "groups-differ-from-the-selected-values", &tag("group"), &c, super::pipe::texts(&exp), &got);
+                        }
+                        // the same grouping behind a sort that ties every row
+                        let mut extra = pre.clone();
+                        extra.push("--sort-by=(len \"\")".into());
+                        extra.push(format!("--group-by={etext}"));
+                        let (c, got) = run_pos(ctx, extra);
+                        if got.as_ref() != Some(&exp) {
+                            report(ctx, "groups-differ-from-the-selected-values", &tag("group-after-a-tying-sort"), &c, super::pipe::texts(&exp), &got);
                         }
                     }
                     // --set macro (and a second --select): same values
@@ -630,11 +647,122 @@ fn cache_threshold_part(ctx: &mut Ctx) {
     ctx.level_done("d:more-distinct-patterns-than-the-cache-holds(sizes-2,3,16,64)");
 }
 
+// ------------------------------------------------------------------ (e) one macro body used under several bindings
+
+const SHARED_SETS: [(&str, &str); 5] = [("@twice", "(| @f @f)"), ("@f", "(- . 1)"), ("@g", "@f"), ("@addv", "(+ . :v)"), ("v", "3")];
+const SHARED: [&str; 12] = [
+    "(define \"f\" (+ . 1) @twice)",
+    "(define \"f\" (* . 10) @twice)",
+    "@twice",
+    "(define \"f\" (* . 10) @g)",
+    "@g",
+    "(set \"v\" 5 @addv)",
+    "@addv",
+    "(define \"g\" @f (+ (define \"f\" 1 @g) (define \"f\" 2 @g)))",
+    "(push [] (define \"f\" 1 @g) @g (define \"f\" 2 @g))",
+    "(push [] (set \"v\" 1 @addv) @addv (set \"v\" 2 @addv))",
+    "(map (range 3) (define \"f\" (+ . ^) @g))",
+    "(define \"f\" (define \"f\" (+ . 2) @twice) @twice)",
+];
+
+/// A macro body is one parsed node that is evaluated under whatever bindings are in scope where the macro is used:
+/// every expression alone against the reference evaluator, then every ordered pair and triple of them as
+/// selections of one run (each column must keep the value it has alone).
+fn shared_site_part(ctx: &mut Ctx) {
+    let inputs = ["3", "4", "10"];
+    let base: Vec<String> = SHARED_SETS.iter().map(|(n, b)| format!("--set={n}={b}")).collect();
+    let input: Vec<u8> = inputs.join("\n").into_bytes();
+    let mut alone: Vec<Option<Vec<Option<V>>>> = Vec::new();
+    for (ei, e) in SHARED.iter().enumerate() {
+        let mut a = base.clone();
+        a.push(format!("--select={e}=c0"));
+        a.push("--select=.=row".into());
+        let case = Case::owned(a, input.clone());
+        let o = ctx.run(&case);
+        let rows = json::parse_rows(&o.stdout, b"\n").ok().filter(|r| o.res.is_ok() && r.len() == inputs.len());
+        let vals: Option<Vec<Option<V>>> = rows.map(|r| r.iter().map(|x| x.get("c0").cloned()).collect());
+        if ctx.mine() {
+            ctx.case_done();
+            ctx.trace_validated();
+            match &vals {
+                None => ctx.violation("select-run-failed", &format!("shared#{ei}"), &[case.clone()], "3 rows".into(), o.brief()),
+                Some(vs) => {
+                    for (i, inp) in inputs.iter().enumerate() {
+                        let mut env = eval::Env::of(json::parse_str(inp));
+                        for (n, b) in SHARED_SETS {
+                            match n.strip_prefix('@') {
+                                Some(m) => env.macros.push((m.to_string(), p(b))),
+                                None => env.vars.push((n.to_string(), json::parse_str(b))),
+                            }
+                        }
+                        if let Ok(model) = eval::eval(&p(e), &env) {
+                            ctx.nontrivial();
+                            if !eval::agrees_opt(&model, &vs[i], false) {
+                                ctx.violation("value-differs-from-the-reference-evaluator", &format!("shared#{ei} input {inp}"), &[case.clone()], eval::show_opt(&model), eval::show_opt(&vs[i]));
+                            }
+                        }
+                    }
+                }
+            }
+        }
+        alone.push(vals);
+    }
+    let n = SHARED.len();
+    let mut tuples: Vec<Vec<usize>> = Vec::new();
+    for a in 0..n {
+        for b in 0..n {
+            tuples.push(vec![a, b]);
+            if ctx.tier == Tier::Thorough || (a + b) % 3 == 0 {
+                for c in 0..n {
+                    tuples.push(vec![a, b, c]);
+                }
+            }
+        }
+    }
+    for t in tuples {
+        if !ctx.mine() {
+            continue;
+        }
+        let mut a = base.clone();
+        for (k, ei) in t.iter().enumerate() {
+            a.push(format!("--select={}=c{k}", SHARED[*ei]));
+        }
+        a.push("--select=.=row".into());
+        let case = Case::owned(a, input.clone());
+        let o = ctx.run(&case);
+        ctx.case_done();
+        ctx.trace_validated();
+        ctx.transition(&("shared", t.clone()));
+        ctx.guard("one-macro-body-under-two-bindings");
+        let rows = json::parse_rows(&o.stdout, b"\n").ok().filter(|r| o.res.is_ok() && r.len() == inputs.len());
+        let Some(rows) = rows else {
+            ctx.violation("select-run-failed", &format!("shared {t:?}"), &[case.clone()], "3 rows".into(), o.brief());
+            continue;
+        };
+        for (k, ei) in t.iter().enumerate() {
+            let Some(want) = &alone[*ei] else { continue };
+            let got: Vec<Option<V>> = rows.iter().map(|r| r.get(&format!("c{k}")).cloned()).collect();
+            if &got != want {
+                ctx.violation(
+                    "value-depends-on-the-other-selections-of-the-run",
+                    &format!("shared#{ei} as column {k} of {t:?}"),
+                    &[case.clone()],
+                    want.iter().map(eval::show_opt).collect::<Vec<_>>().join(" | "),
+                    got.iter().map(eval::show_opt).collect::<Vec<_>>().join(" | "),
+                );
+                break;
+            }
+        }
+    }
+    ctx.level_done("e:one-macro-body-under-several-bindings(alone,pairs,triples)");
+}
+
 fn run(ctx: &mut Ctx) {
     alias_part(ctx);
     position_part(ctx);
     spelling_part(ctx);
     cache_part(ctx);
     cache_threshold_part(ctx);
+    shared_site_part(ctx);
     let _ = Tier::Quick;
 }
